@@ -179,7 +179,7 @@ def solution_recipe(extreme=True, max_pps=4):
         # new computation time or None]
         "edit": st.one_of(st.none(), st.none(), st.tuples(
             st.integers(0, 3), st.one_of(st.none(), st.integers(1, 4)), st.one_of(st.none(), st.integers(0, 7)),
-            st.one_of(st.none(), st.floats(1e-3, 1e3))).map(list)),
+            st.one_of(st.none(), st.floats(1e-3, 1e3)), st.booleans()).map(list)),
     })
 
 
@@ -214,6 +214,10 @@ def apply_edit(sol, r):
     if e[3] is not None:
         sol.computation_time = e[3]
         r2["computation_time"] = e[3]
+    if len(e) > 4 and e[4] and len(p["states"]) > 1:
+        # a new trajectory of the same kind through the public trajectory setter (the value rows in reverse order)
+        p["states"] = list(reversed(p["states"]))
+        target.trajectory = build_trajectory(p)
     return r2
 
 
